@@ -1,10 +1,22 @@
 //! Verification hooks. Compiled only with the `verif` cargo feature, which nothing enables by
 //! default; with the feature off this module and every call into it do not exist.
-use std::cell::Cell;
+use std::cell::{Cell, RefCell};
+use std::collections::VecDeque;
 use std::sync::RwLock;
 
 thread_local! {
     static VIRTUAL_CLOCK: Cell<Option<u64>> = const { Cell::new(None) };
+    static WAIT_RECORDER: RefCell<Option<WaitRecorder>> = const { RefCell::new(None) };
+}
+
+/// One readiness wait requested through `EventLoops::wait_read_event` / `wait_write_event`:
+/// `(fd, is_write, timeout in ns, u64::MAX when there is none)`.
+pub type WaitRequest = (std::ffi::c_int, bool, u64);
+
+#[derive(Debug, Default)]
+struct WaitRecorder {
+    requests: Vec<WaitRequest>,
+    failures: VecDeque<bool>,
 }
 
 /// Callback type: `(point name, first value, second value)`.
@@ -46,4 +58,43 @@ pub fn point(name: &'static str, a: u64, b: u64) {
             f(name, a, b);
         }
     }
+}
+
+/// Start (`Some(failures)`) or stop (`None`) recording the readiness waits requested by the
+/// calling thread. The n-th recorded wait fails with an injected error when `failures[n]` is
+/// `true`; every other wait goes on to the real selector.
+pub fn record_waits(failures: Option<Vec<bool>>) {
+    WAIT_RECORDER.with(|r| {
+        *r.borrow_mut() = failures.map(|f| WaitRecorder {
+            requests: Vec::new(),
+            failures: f.into(),
+        });
+    });
+}
+
+/// The waits recorded on the calling thread since `record_waits(Some(..))`, oldest first.
+#[must_use]
+pub fn recorded_waits() -> Vec<WaitRequest> {
+    WAIT_RECORDER.with(|r| {
+        r.borrow()
+            .as_ref()
+            .map_or_else(Vec::new, |rec| rec.requests.clone())
+    })
+}
+
+/// Called at the start of a readiness wait. Returns `true` when the harness asked for this
+/// wait to fail; does nothing and returns `false` unless the calling thread is recording.
+#[must_use]
+pub fn wait_requested(
+    fd: std::ffi::c_int,
+    is_write: bool,
+    timeout: Option<std::time::Duration>,
+) -> bool {
+    WAIT_RECORDER.with(|r| {
+        r.borrow_mut().as_mut().is_some_and(|rec| {
+            let nanos = timeout.map_or(u64::MAX, |t| u64::try_from(t.as_nanos()).unwrap_or(u64::MAX));
+            rec.requests.push((fd, is_write, nanos));
+            rec.failures.pop_front().unwrap_or(false)
+        })
+    })
 }
